@@ -652,9 +652,14 @@ pub fn c03_c11_c20() -> Result<u64, String> {
         }
     }
     // C03: foreign archives whose directories are very regular (consecutive ids, equal lengths, back-to-back offsets) compress to far less than one byte per entry
-    for ic in 2u8..=4 { for cnt in [40usize, 3000] { n += 1;
+    for ic in 2u8..=4 { for cnt in [400usize, 3000] { n += 1;
         let tiles: Model = (0..cnt as u64).map(|i| (i, vec![(i % 251) as u8, (i / 251) as u8, 3])).collect();
-        let b = foreign_archive(&mut r, &tiles, ic, 0, false);
+        let b = { let mut data = Vec::new(); let mut es = Vec::new(); for (id, v) in &tiles { es.push(E { id: *id, off: data.len() as u64, len: v.len() as u32, run: 1 }); data.extend(v); }
+            let root = compress(ic, &dir_enc(&es)); let meta = compress(ic, b"{\"name\":\"foreign\"}"); let roff = 127u64; let moff = roff + root.len() as u64; let doff = moff + meta.len() as u64;
+            if root.len() >= cnt { return Err(format!("generator bug: the regular directory of {cnt} entries compresses to {} bytes only", root.len())); }
+            let h = Hdr { root_off: roff, root_len: root.len() as u64, meta_off: moff, meta_len: meta.len() as u64, leaf_off: doff, leaf_len: 0, data_off: doff, data_len: data.len() as u64,
+                n_addr: tiles.len() as u64, n_entries: es.len() as u64, n_contents: es.len() as u64, clustered: 1, ic, tc: 1, tt: 1, min_zoom: 0, max_zoom: 3, min_lon: 0, min_lat: 0, max_lon: 0, max_lat: 0, center_zoom: 0, c_lon: 0, c_lat: 0 };
+            let mut b = build_header(&h); b.extend(&root); b.extend(&meta); b.extend(&data); b };
         parse_archive_foreign(&b).map_err(|e| format!("generator bug: {e}"))?;
         let mut pm = PMTiles::from_bytes(b.clone()).map_err(|e| format!("spec-valid foreign archive with {cnt} very regular entries (compression code {ic}) does not open: {e}"))?;
         if pm.num_tiles() != cnt { return Err(format!("foreign archive with {cnt} regular entries: {} tiles seen", pm.num_tiles())); }
